@@ -108,6 +108,8 @@ def _random_jobs(rng, n):
             yield ("join", b", ", [b"Hello", b"", b"World ", b"x"])
             # ranges of other element TYPES: characters (four container kinds), unsigned 64 bit, short, bool, double,
             # C strings
+            yield ("joinp", rng.choice([b",", b" ", b"", b", "]),
+                   [rng.choice([b"a", b"", b"b ", b"", b"word"]) for _ in range(rng.randint(0, 6))])
             yield ("joinc", rng.choice([b"-", b"", b", "]), rng.choice([b"abc", b"x", b"", b"a b", b"\xc3\xa4z", b"0123456789" * 3]))
             yield ("joint2", rng.choice([b" ", b","]), [rng.choice([0, 7, 255, 4096, 65535, 2147483647]) for _ in range(rng.randint(1, 4))])
 
@@ -159,6 +161,8 @@ def op_line(job):
         return "%s %s %s" % (k.upper(), hx(job[1]), " ".join(str(i) for i in job[2]))
     if k == "joinc":
         return "JOINC %s %s" % (hx(job[1]), hx(job[2]))
+    if k == "joinp":
+        return "JOINP %s %s" % (hx(job[1]), " ".join(hx(e) for e in job[2]))
     raise ValueError(job)
 
 
@@ -197,6 +201,8 @@ def hostile_class(job):
         return "single-pass-range"
     if k == "joinc":
         return "range-of-characters"
+    if k == "joinp":
+        return "c-strings-and-string-views"
     if k == "joint2":
         return "other-element-types"
     if k == "joinh":
@@ -291,7 +297,7 @@ def judge(job, res):
         if not line.startswith("J !std::runtime_error"):
             return ("join:element-exception-did-not-propagate", line[:200])
         return None
-    if k in ("join", "joini", "joins", "joinh", "joint"):
+    if k in ("join", "joini", "joins", "joinh", "joint", "joinp"):
         infix = b" " if job[1] is None else job[1]
         elems = job[2] if k not in ("joini", "joinh", "joint") else \
             [(str(i) if k == "joini" else ("%x" % i if k == "joinh" else "part%d" % i)).encode() for i in job[2]]
